@@ -12,6 +12,8 @@ one table, optionally `is_running()` sees a second one, the call sees a third, a
 change between `ppid_map()` and the per-child look-ups (processes vanishing / PIDs recycled while
 the tree is walked). Small tables are enumerated exhaustively.
 """
+import contextlib
+import errno
 import itertools
 import os
 import shutil
@@ -64,6 +66,17 @@ def state_of(pid):
     return [b"S", b"R", b"Z", b"D", b"S", b"I", b"T"][pid % 7]      # zombies are listed processes too
 
 
+def row_state(row):
+    """state letter of a row: plain rows [pid, ppid, start] keep the per-PID letter; rows of the richer
+    world carry "R" (any non-zombie letter), "Z" (zombie) or "X" (stat unreadable; letter irrelevant)"""
+    if len(row) < 4:
+        return state_of(row[0])
+    if row[3] == "Z":
+        return b"Z"
+    st = state_of(row[0])
+    return b"S" if st == b"Z" else st
+
+
 def render_stat(pid, comm, state, ppid, pre, start, post):
     return b"%d (%s) %s" % (pid, comm, b" ".join([state, b"%d" % ppid] + list(pre) + [b"%d" % start] + list(post))) + b"\n"
 
@@ -101,8 +114,32 @@ class Impl:
                     for ev in outer.events.pop(outer.lookup_no, []):
                         outer.apply_event(ev)
                     outer.lookups.setdefault(pid, outer.cur_rows.get(pid))
+                if outer.hook_mode == "parents":
+                    outer.hook("construct")
                 super().__init__(pid)
+
+            def ppid(self):
+                # `self._proc.ppid()`: the own-stat read of Process.ppid()
+                if outer.hook_mode == "parents":
+                    outer.hook("own")
+                return super().ppid()
         self.Counting = Counting
+        self.hook_mode = None
+        self.expect = "id"
+        self.steps = []
+        # unreadable stat files (EACCES): the harness runs as root, so the refusal is injected at
+        # psutil's own open helper (both the name _pslinux imported and the one bcat() looks up)
+        self.denied_paths = set()
+        self.real_open_common = self.ps._common.open_binary
+        self.real_open_plat = self.plat.open_binary
+        real_open = self.real_open_common
+
+        def open_binary(fname):
+            if fname in outer.denied_paths:
+                raise PermissionError(errno.EACCES, "Permission denied", fname)
+            return real_open(fname)
+        self.ps._common.open_binary = open_binary
+        self.plat.open_binary = open_binary
         self.after_snapshot = False
         self.lookup_no = 0
         self.events = {}
@@ -121,7 +158,29 @@ class Impl:
             prev = v
         return True
 
+    def hook(self, kind):
+        """one look-up of parent()/parents(): let the scheduled kernel events happen, then record the
+        table this look-up sees. kinds in order per parent() call: identity check (`Process(self.pid)`
+        inside is_running()), own stat (`_proc.ppid()`), parent (`Process(ppid)`)."""
+        self.lookup_no += 1
+        for ev in self.events.pop(self.lookup_no, []):
+            self.apply_event(ev)
+        snap = [list(r) for r in self.cur_rows.values()]
+        if kind == "own":
+            if not self.steps or "own" in self.steps[-1] or "par" in self.steps[-1]:
+                self.steps.append({})
+            self.steps[-1]["own"] = snap
+            self.expect = "par"
+        elif self.expect == "par" and self.steps and "par" not in self.steps[-1]:
+            self.steps[-1]["par"] = snap
+            self.expect = "id"
+        else:
+            self.steps.append({"id": snap})
+            self.expect = "id"
+
     def close(self):
+        self.ps._common.open_binary = self.real_open_common
+        self.plat.open_binary = self.real_open_plat
         self.ps._ppid_map = self.real_ppid_map
         self.plat.Process = self.RealProc
         self.ps.Process.parent = self.real_parent
@@ -132,9 +191,13 @@ class Impl:
     def set_table(self, rows):
         want = {}
         self.cur_rows = {}
-        for pid, ppid, start in rows:
-            want[pid] = render_stat(pid, comm_of(pid), state_of(pid), ppid, PRE, start, POST)
-            self.cur_rows[pid] = [pid, ppid, start]
+        self.denied_paths = set()
+        for row in rows:
+            pid, ppid, start = row[:3]
+            want[pid] = render_stat(pid, comm_of(pid), row_state(row), ppid, PRE, start, POST)
+            self.cur_rows[pid] = list(row)
+            if len(row) > 3 and row[3] == "X":
+                self.denied_paths.add("%s/%d/stat" % (self.fp.root, pid))
         for pid in [p for p in self.cur if p not in want]:
             shutil.rmtree(self.fp.path(str(pid)), ignore_errors=True)
             del self.cur[pid]
@@ -147,15 +210,18 @@ class Impl:
         """one kernel event while the tree is walked: [pid, None] = the process exits,
         [pid, [pid, ppid, start]] = the PID now belongs to this (new) process"""
         pid, row = ev
+        self.denied_paths.discard("%s/%d/stat" % (self.fp.root, pid))
         if row is None:
             shutil.rmtree(self.fp.path(str(pid)), ignore_errors=True)
             self.cur.pop(pid, None)
             self.cur_rows.pop(pid, None)
         else:
-            data = render_stat(pid, comm_of(pid), state_of(pid), row[1], PRE, row[2], POST)
+            data = render_stat(pid, comm_of(pid), row_state(row), row[1], PRE, row[2], POST)
             self.fp.write("%d/stat" % pid, data)
             self.cur[pid] = data
             self.cur_rows[pid] = list(row)
+            if len(row) > 3 and row[3] == "X":
+                self.denied_paths.add("%s/%d/stat" % (self.fp.root, pid))
 
     def to_ticks(self, ct):
         return int(round((ct - BOOT) * self.ticks))
@@ -187,10 +253,22 @@ class Impl:
                 extra["iterated"] = sorted(q.pid for q in ps.process_iter())
             except Exception as e:
                 extra["iterated"] = type(e).__name__
+        dyn = case.get("op") == "dyn"
+        if dyn:
+            # the caller's own `_proc` must be the hooked class too (its ppid() read is a look-up)
+            self.counter[0], self.counter[1] = 0, None
+            self.hook_mode = None
+            self.plat.Process = self.Counting
         self.set_table(case["mk"])
         try:
-            p = ps.Process(case["pid"])
+            if case.get("via_iter"):
+                # the object psutil.process_iter() yields (and keeps in psutil._pmap)
+                p = [q for q in ps.process_iter() if q.pid == case["pid"]][0]
+                extra["in_pmap"] = ps._pmap.get(case["pid"]) is p
+            else:
+                p = ps.Process(case["pid"])
         except Exception as e:
+            self.plat.Process = self.RealProc
             return {"kind": "harness", "what": "Process(pid) failed on mk", "exc": type(e).__name__}, None, extra
         if case.get("pids_call") == "mk":
             self._pids()
@@ -226,6 +304,28 @@ class Impl:
         self.lookup_no = 0
         self.lookups = {}
         self.events = {}
+        self.steps = []
+        self.expect = "id"
+        oneshot = case.get("oneshot") if dyn else None
+        cm = p.oneshot() if oneshot is not None else contextlib.nullcontext()
+        cm.__enter__()
+        if oneshot is not None and oneshot != "fresh":
+            # an earlier p.ppid() inside the block, on the table `oneshot`: fills the memoised ppid
+            self.set_table(oneshot)
+            try:
+                extra["prefill"] = p.ppid()
+            except Exception as e:
+                extra["prefill"] = type(e).__name__
+            self.set_table(case["t0"])
+            cached = isinstance(extra["prefill"], int)
+            self.expect = "par" if cached else "id"
+            if cached:
+                self.steps = [{}]
+        if dyn and call in ("parent", "parents"):
+            fuel = len(case["t0"]) + len(case.get("events") or []) + 2
+            for k, pid_, row in case.get("events") or []:
+                self.events.setdefault(k, []).append([pid_, row])
+            self.hook_mode = "parents"
         if call in ("children", "children_rec") and case.get("events"):
             for k, pid_, row in case["events"]:
                 self.events.setdefault(k, []).append([pid_, row])
@@ -284,10 +384,18 @@ class Impl:
             signal.signal(signal.SIGALRM, old)
             self.counter[1] = None
             self.after_snapshot = False
+            self.hook_mode = None
+            try:
+                cm.__exit__(None, None, None)
+            except Exception:
+                pass
             self.plat.Process = self.RealProc
             ps.Process.parent = self.real_parent
             ps._ppid_map = self.real_ppid_map
-        if case.get("events"):
+        if dyn and call in ("parent", "parents"):
+            final = [list(r) for r in self.cur_rows.values()]
+            extra["steps"] = [[st.get("id", final), st.get("own", final), st.get("par", final)] for st in self.steps] or None
+        elif case.get("events"):
             # the world in which each PID was examined: its state at its own look-up
             # (PIDs never examined: their final state — irrelevant to the result)
             t1 = []
@@ -618,7 +726,185 @@ def judge(case, obs, running, extra, m, res, source, record=True):
     return None
 
 
+def judge_dyn(case, obs, extra, m, res, source, record=True):
+    """cases of the richer world (zombies, unreadable stat files, a world per parents() step, oneshot,
+    objects from process_iter()). `spec` is null where the specification is silent: model only."""
+    inp = {"case": case, "source": source}
+    mo, sp = m["model"], m["spec"]
+
+    def dis(kind, impl, note):
+        if record:
+            res.disagree(kind, inp, impl, mo, sp, note=note)
+        return kind
+    if not m.get("closed", False):
+        return dis("model", obs, "driver: specification saturation did not close (harness/spec bug)")
+    if obs.get("kind") == "harness":
+        return dis("model", obs, "harness could not build the Process object")
+    if not m.get("old_agrees", True):
+        return dis("model", obs, "Model/C05Dyn.lean differs from Model/C05.lean on a static, readable table")
+    if extra.get("older"):
+        return dis("spec", {"older_than_caller": extra["older"], "out": obs},
+                   "children() returned a process that started before the caller")
+    spec_applies = sp is not None
+    if not spec_applies and record:
+        res.count("model_only:cached_oneshot" if m.get("cached") else "model_only:unreadable_on_path")
+    if case["call"] in ("parent", "parents") and spec_applies:
+        if case.get("lowest") is not None and case["lowest"] != min_pid(case["t0"]):
+            spec_applies = False
+            res.count("model_only:stale_lowest") if record else None
+    if spec_applies and obs != sp:
+        return dis("spec", obs, "%s(): implementation differs from the specification (richer world)" % case["call"])
+    if obs != mo:
+        return dis("model", obs, "%s(): implementation differs from the Lean model (richer world)" % case["call"])
+    return None
+
+
+def mk_dyn(call, pid, t0, mk=None, events=None, oneshot=None, via_iter=False, pids_call=None, family=""):
+    x = lambda rows: [list(r) if len(r) > 3 else list(r) + ["R"] for r in rows]
+    c = {"op": "dyn", "call": call, "pid": pid, "mk": x(t0 if mk is None else mk), "mid": None, "lowest": None,
+         "t0": x(t0), "t1": None, "steps": None, "oneshot": (x(oneshot) if isinstance(oneshot, list) else oneshot),
+         "pids_call": pids_call, "family": family}
+    if events:
+        c["events"] = [[k, p_, (None if r is None else (list(r) if len(r) > 3 else list(r) + ["R"]))] for k, p_, r in events]
+    if via_iter:
+        c["via_iter"] = True
+    return c
+
+
+def chain_of(rows, pid):
+    pp = {r[0]: r[1] for r in rows}
+    out, cur = [], pid
+    while cur in pp and pp[cur] in pp and pp[cur] not in out and pp[cur] != cur and len(out) < 10:
+        cur = pp[cur]
+        out.append(cur)
+    return out
+
+
+def gen_dyn_cases(rng, n):
+    """→ (cases, tags) for the richer world; every family drives the REAL code path:
+    zombie / unreadable rows, unreadable while walking, events between the look-ups of parents(),
+    oneshot (fresh / after a ppid() on an earlier table), objects yielded by process_iter()."""
+    cases, tags = [], []
+
+    def add(c, tag):
+        cases.append(c)
+        tags.append(tag)
+    fams = ["zombie", "denied_static", "denied_mid_walk", "parents_dyn", "parents_dyn", "oneshot", "via_iter", "denied_caller"]
+    for i in range(n):
+        fam = fams[i % len(fams)]
+        rows = gen_table(rng, ["forest", "forest", "random", "cycle", "unlisted"][i % 5])
+        if fam == "parents_dyn":
+            # make sure there is a chain worth walking
+            rows = gen_table(rng, "forest")
+        pids = [r[0] for r in rows]
+        row = {r[0]: r for r in rows}
+        deep = max(pids, key=lambda q: len(chain_of(rows, q)))
+        callers = pick_callers(rng, rows, 2)
+        if fam in ("parents_dyn", "oneshot") and deep not in callers:
+            callers[0] = deep
+        for pid in callers:
+            others = [q for q in pids if q != pid]
+            if fam == "zombie":
+                z = set(q for q in pids if rng.random() < 0.4)
+                z |= {rng.choice([pid, row[pid][1] if row[pid][1] in row else pid] + [q for q in pids if row[q][1] == pid])}
+                t0 = [r + ["Z" if r[0] in z else "R"] for r in rows]
+                for call in CALLS:
+                    add(mk_dyn(call, pid, t0, family="dyn/zombie"), "dyn/zombie")
+            elif fam == "denied_static":
+                d = set(q for q in others if rng.random() < 0.35)
+                t0 = [r + ["X" if r[0] in d else rng.choice(["R", "R", "Z"])] for r in rows]
+                mk = [r + ["R"] for r in rows]
+                for call in CALLS:
+                    add(mk_dyn(call, pid, t0, mk=mk, family="dyn/denied_static"), "dyn/denied_static")
+            elif fam == "denied_caller":
+                t0 = [r + ["X" if r[0] == pid else "R"] for r in rows]
+                mk = [r + ["R"] for r in rows]
+                for call in CALLS:
+                    add(mk_dyn(call, pid, t0, mk=mk, family="dyn/denied_caller"), "dyn/denied_caller")
+            elif fam == "denied_mid_walk":
+                evs = []
+                for _ in range(rng.randrange(1, 3)):
+                    x = row[rng.choice(others)] if others else row[pid]
+                    evs.append([rng.randrange(1, len(rows) + 1), x[0], list(x[:3]) + ["X"]])
+                for call in ("children", "children_rec"):
+                    add(mk_dyn(call, pid, rows, events=[list(e) for e in evs], family="dyn/denied_mid_walk"), "dyn/denied_mid_walk")
+            elif fam == "parents_dyn":
+                ch = chain_of(rows, pid)
+                evs = []
+                for _ in range(rng.randrange(1, 4)):
+                    tgt = rng.choice(ch + [pid]) if ch else pid
+                    k = rng.randrange(1, 3 * (len(ch) + 1) + 1)
+                    kind = rng.random()
+                    r0 = row[tgt]
+                    if kind < 0.3:
+                        evs.append([k, tgt, None])                                             # exits and is reaped
+                    elif kind < 0.6:
+                        evs.append([k, tgt, [tgt, rng.choice(pids + [0]), max(0, r0[2] + rng.choice([-2, -1, 1, 3, 50]))]])  # PID reused
+                    elif kind < 0.8:
+                        evs.append([k, tgt, [tgt, rng.choice([min(pids), 0, rng.choice(pids)]), r0[2]]])   # re-parented
+                    elif kind < 0.9:
+                        evs.append([k, tgt, list(r0[:3]) + ["Z"]])                               # turns zombie
+                    else:
+                        evs.append([k, tgt, list(r0[:3]) + ["X"]])                               # turns unreadable
+                for call in ("parent", "parents"):
+                    add(mk_dyn(call, pid, rows, events=[list(e) for e in evs], pids_call=rng.choice([None, "t0"]),
+                               family="dyn/parents_dyn"), "dyn/parents_dyn")
+            elif fam == "oneshot":
+                me = row[pid]
+                kind = rng.random()
+                if kind < 0.25:
+                    pre, t0 = "fresh", rows
+                elif kind < 0.6:
+                    # the parent dies inside the block: the caller is re-parented to init
+                    pre = rows
+                    t0 = [r for r in rows if r[0] != me[1] or r[0] == pid]
+                    t0 = [[r[0], (min(pids) if r[0] == pid else r[1]), r[2]] for r in t0]
+                elif kind < 0.8:
+                    # the caller's PID is recycled inside the block
+                    pre = rows
+                    t0 = [r if r[0] != pid else [pid, rng.choice(pids + [0]), me[2] + 1] for r in rows]
+                else:
+                    pre = older_table(rng, rows, {pid})
+                    t0 = rows
+                for call in CALLS:
+                    add(mk_dyn(call, pid, t0, mk=(rows if pre == "fresh" else pre), oneshot=pre, family="dyn/oneshot"), "dyn/oneshot")
+            elif fam == "via_iter":
+                old = older_table(rng, rows, {pid} if rng.random() < 0.7 else set())
+                if pid not in [r[0] for r in old]:
+                    old.append(list(row[pid]))
+                for call in CALLS:
+                    add(mk_dyn(call, pid, rows, mk=old, via_iter=True, family="dyn/via_iter"), "dyn/via_iter")
+    return cases, tags
+
+
+def dyn_corpus():
+    cases = []
+    tz = [[1, 0, 1, "R"], [5, 1, 10, "Z"], [6, 5, 20, "Z"], [7, 5, 9, "Z"], [8, 6, 30, "R"]]
+    for call in CALLS:
+        cases.append(mk_dyn(call, 5, tz, family="corpus:zombie-caller"))
+        cases.append(mk_dyn(call, 8, tz, family="corpus:zombie-parent"))
+        cases.append(mk_dyn(call, 6, tz, family="corpus:zombie-child-of-zombie"))
+    # Props: C05_unreadable_mid_walk_counterexample — child 6 turns unreadable after ppid_map()
+    t = [[1, 0, 1], [5, 1, 10], [6, 5, 20]]
+    for call in ("children", "children_rec"):
+        cases.append(mk_dyn(call, 5, t, events=[[1, 6, [6, 5, 20, "X"]]], family="corpus:unreadable-mid-walk"))
+        cases.append(mk_dyn(call, 1, [[1, 0, 1, "R"], [5, 1, 10, "R"], [6, 5, 20, "X"]], family="corpus:unreadable-in-ppid-map"))
+    # Props: the three worlds of the parents() example
+    w0 = [[1, 0, 1], [10, 1, 5], [20, 10, 8], [30, 20, 9]]
+    for call in ("parent", "parents"):
+        cases.append(mk_dyn(call, 30, w0, family="corpus:parents-constant"))
+        cases.append(mk_dyn(call, 30, w0, events=[[4, 20, [20, 1, 50]], [4, 30, [30, 1, 9]]], family="corpus:parents-ancestor-recycled"))
+        cases.append(mk_dyn(call, 30, w0, events=[[4, 10, None], [4, 20, [20, 1, 8]]], family="corpus:parents-ancestor-reparented"))
+        cases.append(mk_dyn(call, 30, w0, events=[[4, 20, None]], family="corpus:parents-ancestor-exits"))
+        cases.append(mk_dyn(call, 30, w0, events=[[6, 10, [10, 1, 9]]], family="corpus:parents-grandparent-reused-younger"))
+        cases.append(mk_dyn(call, 30, w0, oneshot=w0, family="corpus:oneshot-cached"))
+        cases.append(mk_dyn(call, 30, [[1, 0, 1], [10, 1, 5], [30, 1, 9]], mk=w0, oneshot=w0, family="corpus:oneshot-reparented-inside"))
+    return cases, [c["family"] for c in cases]
+
+
 def strip(case):
+    if case.get("op") == "dyn":
+        return {k: case.get(k) for k in ("op", "call", "pid", "mk", "lowest", "t0", "t1", "steps", "oneshot")}
     return {k: case[k] for k in ("op", "call", "pid", "mk", "mid", "lowest", "t0", "t1")}
 
 
@@ -631,13 +917,19 @@ def run_cases(ctx, impl, cases, res, source, record=True):
         obs, running, extra = impl.run_case(c)
         if "t1" in extra:
             c["t1"] = extra["t1"]          # events: the look-up world is known only after the run
+        if c.get("op") == "dyn":
+            c["steps"] = extra.get("steps")
+            c["lowest"] = extra.get("lowest")      # what the module holds (its computation is checked by the plain cases)
         ran.append((obs, running, extra))
     outs = ctx.driver().batch([strip(c) for c in cases])
     verdicts = []
     for c, m, (obs, running, extra) in zip(cases, outs, ran):
         if "bad" in m:
             raise RuntimeError("driver rejected %r: %s" % (c, m))
-        verdicts.append(judge(c, obs, running, extra, m, res, source, record))
+        if c.get("op") == "dyn":
+            verdicts.append(judge_dyn(c, obs, extra, m, res, source, record))
+        else:
+            verdicts.append(judge(c, obs, running, extra, m, res, source, record))
     return verdicts
 
 
@@ -765,7 +1057,21 @@ def correspond(ctx, res):
             cases.append(mk_case(call, 10, now, it=seen_by_iter, family="corpus:iter-then-recycled-children"))
             cases.append(mk_case(call, 40, now, it=[[1, 0, 1], [10, 1, 100], [20, 1, 300], [40, 20, 220]],
                                  family="corpus:iter-then-recycled-parent"))
+        # the table of seeded change C05-2 (start times scaled to the tick range): 300 hangs off the recycled
+        # PID 200 and is older than the caller 100; 400 below it; 700 older by one tick at depth 3
+        seeded2 = [[1, 0, 1], [100, 1, 500], [200, 100, 600], [500, 200, 650], [300, 200, 100], [400, 300, 700],
+                   [600, 100, 90], [700, 500, 499]]
+        for call in CALLS:
+            for pid in (100, 200, 300):
+                cases.append(mk_case(call, pid, seeded2, family="corpus:seeded-C05-2-older-descendant"))
         tags += [c["family"] for c in cases]
+        # ---- the richer world: zombies, unreadable stat files, a world per parents() step, oneshot, process_iter objects
+        dc, dt = dyn_corpus()
+        cases += dc
+        tags += dt
+        dc, dt = gen_dyn_cases(ctx.rng, ctx.n(200, 2400))
+        cases += dc
+        tags += dt
         # ---- random
         n_tables = ctx.n(640, 8000)
         for i in range(n_tables):
@@ -801,6 +1107,35 @@ def correspond(ctx, res):
                         cases.append(mk_case(call, pid, rows, family="exhaustive"))
                         tags.append("exhaustive")
             ex_desc.append("%d tables of %d processes" % (cnt, k))
+        if ctx.tier != "quick":
+            # 5 processes: every ppid assignment (6^5) × every start-time order with at most two levels
+            # (all equal, or any split into older/younger: 31), one caller per table (rotating), the two
+            # calls whose result depends on depth
+            P5 = [2, 3, 5, 8, 13]
+            wo2 = [w for w in weak_orders(5) if max(w) <= 1]
+            cnt = 0
+            for pp in itertools.product(P5 + [0], repeat=5):
+                for st in wo2:
+                    rows = [[P5[i], pp[i], st[i]] for i in range(5)]
+                    pid = P5[cnt % 5]
+                    cnt += 1
+                    for call in ("children_rec", "parents"):
+                        cases.append(mk_case(call, pid, rows, family="exhaustive"))
+                        tags.append("exhaustive")
+            ex_desc.append("%d tables of 5 processes (start orders with ≤2 levels, rotating caller, children(recursive=True) and parents())" % cnt)
+        # ---- exhaustive: every 2-process table × every assignment of states {running, zombie, unreadable}
+        cnt = 0
+        for rows in exhaustive_tables(2, [2, 3]):
+            for sts in itertools.product("RZX", repeat=2):
+                cnt += 1
+                t0 = [rows[i] + [sts[i]] for i in range(2)]
+                for i, pid in enumerate((2, 3)):
+                    mkr = [list(r) for r in t0]
+                    mkr[i][3] = "R" if mkr[i][3] == "X" else mkr[i][3]      # the object is built on a readable stat
+                    for call in CALLS:
+                        cases.append(mk_dyn(call, pid, t0, mk=mkr, family="exhaustive-states"))
+                        tags.append("exhaustive-states")
+        ex_desc.append("%d (2-process table, states in {running, zombie, unreadable}²)" % cnt)
         # ---- exhaustive: every 2-process table seen by process_iter() × every 2-process table seen by the call
         cnt = 0
         for old in exhaustive_tables(2, [2, 3]):
@@ -813,7 +1148,7 @@ def correspond(ctx, res):
         ex_desc.append("%d pairs (table cached by process_iter(), table seen by the call) of 2 processes" % cnt)
         # ---- run
         CH = 3000
-        workers = 1 if ctx.tier == "quick" else max(1, min(8, (os.cpu_count() or 2) // 2))
+        workers = 1 if ctx.tier == "quick" else max(1, min(16, (os.cpu_count() or 2)))
         if workers > 1:
             run_sharded(ctx, cases, res, workers)
         for a in range(0, len(cases), CH):
@@ -832,6 +1167,17 @@ def correspond(ctx, res):
                 res.count("table_size:%s" % ("1-3" if len(c["t0"]) <= 3 else "4-8" if len(c["t0"]) <= 8 else "9-40"))
                 res.case((c["call"], c["pid"], c["mk"], c["mid"], c["t0"], c["t1"], c["lowest"], c.get("events"), c.get("iter")), nontrivial=bool(feats),
                          sample={"family": fam, "case": strip(c)} if (a + j) in (0, 1, 30, 41, 77) else None)
+        # ---- as_dict() is not a way to reach the tree methods (if it becomes one, it needs its own family)
+        impl.set_table([[1, 0, 1], [4, 1, 2]])
+        for name in ("children", "parent", "parents"):
+            try:
+                impl.ps.Process(4).as_dict(attrs=[name])
+                res.disagree("model", {"as_dict": name}, "accepted", None, None,
+                             note="as_dict(attrs=[%r]) is accepted now: a call mode the correspondence does not cover" % name)
+            except ValueError:
+                res.count("as_dict_rejects:" + name)
+            except Exception as e:
+                res.disagree("model", {"as_dict": name}, type(e).__name__, None, None, note="as_dict(attrs=[%r])" % name)
         # ---- stat lines
         slines = stat_cases(ctx.rng, ctx.n(300, 20000))
         souts = ctx.driver().batch(slines)
